@@ -103,11 +103,12 @@ TmplArgs ==
 AllSuffixes == {"", "-no-context", "-context", "-base", "-base-prerelease", "-base-prerelease-post", "-base-prerelease-post-dev",
                 "-base-context", "-base-prerelease-context", "-base-prerelease-post-context", "-base-prerelease-post-dev-context"}
 TierArgs ==
-  { [ src |-> SrcNone, hasTag |-> TRUE, tag |-> V(NONE, 1, 2, 3, l, IF l = "none" THEN NONE ELSE 1, po, NONE),
+  { [ src |-> SrcNone, hasTag |-> TRUE, tag |-> V(NONE, 1, 2, 3, l, IF l = "none" THEN NONE ELSE 1, po, dv),
       ov |-> NoOv, bp |-> NoOv, ops |-> <<>>,
       vcs |-> [NoVcs EXCEPT !.distance = d, !.dirty = (di = 1), !.nodirty = (di = 0), !.branch = 1, !.hash = 1],
       schema |-> [kind |-> "preset", fam |-> fam, suffix |-> sfx, sch |-> FullTier, order |-> DefaultOrder] ]
-    : l \in {"none", "rc"}, po \in {NONE, 0, 2}, d \in {NONE, 0, 3}, di \in {NONE, 0, 1}, fam \in {"standard", "calver"}, sfx \in AllSuffixes }
+    \* a dev number in the tag is NOT an input of the tier choice (it is printed only by tiers that have a dev component)
+    : l \in {"none", "rc"}, po \in {NONE, 0, 2}, dv \in {NONE, 7}, d \in {NONE, 0, 3}, di \in {NONE, 0, 1}, fam \in {"standard", "calver"}, sfx \in AllSuffixes }
 ArgSpace == CASE Mode = "tier" -> TierArgs [] Mode = "tmpl" -> TmplArgs [] Mode = "names" -> NamesArgs [] Mode = "index" -> IndexArgs [] Mode = "vcs" -> VcsArgs [] Mode = "order" -> OrderArgs
 
 Init == \E args \in ArgSpace : InitWith(args)
